@@ -10,6 +10,19 @@
 //!            |["eqr",c1,r1,c2,r2]|["instr",c,r,icol,irow]|["constr",c,r,val]|["fixr",c,r,fcol,frow]]}
 //! atom = ["a",col,rot] | ["f",col,rot] | ["i",col,rot] | ["c",idx] | ["k",small_int]
 //! constraint polynomial = sum_of_products - out.
+//!
+//! STATIC lookup tables (C02_S / C02_S2 static-table family; all keys optional):
+//!  "tables":[{"rows":[[v,..],..]} | {"ncols":c,"len_from_usable":-1}]   one `meta.lookup_table_column()` per table column
+//!            (allocated after every other fixed column, tables in declared order), contents assigned through
+//!            `layouter.assign_table(.., |t| t.assign_cell(.., column, offset, || Value::known(v)))`; "len_from_usable":d
+//!            = a table of (usable rows + d) rows with values row i, column j -> i + 1 + 10 j (resolved by `Shape::resolve`)
+//!  "assign_order":[t,..]  order of the assign_table calls (default: declared order)
+//!  "slookups":[{"table":t,"sel":"none"|"mux"|"mul","rows":E,"inputs":[[[atom..],..],..]}]   `meta.lookup(name, ..)`:
+//!            one input per table column, input = sum of products of atoms whose FIRST product is a single advice atom
+//!            at rotation 0 (the cell the honest witness solves for); "mux": q*in + (1-q)*d with q a complex selector of
+//!            its own and d the table's first row, "mul": q*in, "none": in (then every usable row is assigned and the
+//!            input columns must not be used by anything else). Enabled rows: E rows starting at `slookup_base`.
+//!  "lkcheat":[l,[dec,..]]  witness only: on its first enabled row static lookup l looks the given tuple up
 use std::collections::BTreeMap;
 
 use ff::PrimeField;
@@ -17,7 +30,7 @@ use midnight_proofs::{
     circuit::{Layouter, SimpleFloorPlanner, Value},
     plonk::{
         Advice, Challenge, Circuit, Column, ConstraintSystem, Constraints, Error, Expression, FirstPhase, Fixed,
-        Instance, SecondPhase, Selector, ThirdPhase,
+        Instance, SecondPhase, Selector, TableColumn, ThirdPhase,
     },
     poly::Rotation,
 };
@@ -58,6 +71,21 @@ pub enum Copy {
     /// advice (c,r) == fixed (fcol, frow)   (the fixed column must be in `eq`)
     FixR(usize, usize, usize, usize),
 }
+/// a static lookup table (TableColumn columns, assign_table)
+#[derive(Clone, Debug, Default)]
+pub struct TableD {
+    pub ncols: usize,
+    pub rows: Vec<Vec<u64>>,
+    pub len_from_usable: Option<i64>,
+}
+/// a lookup into a static table
+#[derive(Clone, Debug, Default)]
+pub struct SLookup {
+    pub table: usize,
+    pub sel: String,
+    pub nrows: usize,
+    pub inputs: Vec<Vec<Vec<Atom>>>,
+}
 #[derive(Clone, Debug, Default)]
 pub struct Shape {
     pub adv: Vec<u8>,
@@ -71,6 +99,12 @@ pub struct Shape {
     pub eq: Vec<(char, usize)>,
     pub const_col: bool,
     pub copies: Vec<Copy>,
+    pub tables: Vec<TableD>,
+    pub assign_order: Vec<usize>,
+    pub slookups: Vec<SLookup>,
+    /// number of usable rows (filled by `resolve`; needed by "sel":"none" lookups and "len_from_usable" tables)
+    pub urows: usize,
+    pub lkcheat: Option<(usize, Vec<String>)>,
 }
 
 fn atom(j: &J) -> Atom {
@@ -143,6 +177,66 @@ impl Shape {
                     }
                 })
                 .collect(),
+            tables: arr("tables")
+                .iter()
+                .map(|t| {
+                    let rows: Vec<Vec<u64>> = t
+                        .get("rows")
+                        .and_then(|r| r.as_array())
+                        .map(|r| r.iter().map(|row| row.as_array().unwrap().iter().map(|v| v.as_u64().unwrap()).collect()).collect())
+                        .unwrap_or_default();
+                    let ncols = t.get("ncols").and_then(|v| v.as_u64()).map(|v| v as usize).unwrap_or_else(|| rows[0].len());
+                    TableD { ncols, rows, len_from_usable: t.get("len_from_usable").and_then(|v| v.as_i64()) }
+                })
+                .collect(),
+            assign_order: arr("assign_order").iter().map(|v| v.as_u64().unwrap() as usize).collect(),
+            slookups: arr("slookups")
+                .iter()
+                .map(|l| SLookup {
+                    table: l["table"].as_u64().unwrap() as usize,
+                    sel: l.get("sel").and_then(|v| v.as_str()).unwrap_or("none").to_string(),
+                    nrows: l.get("rows").and_then(|v| v.as_u64()).unwrap_or(1) as usize,
+                    inputs: l["inputs"].as_array().unwrap().iter().map(|inp| inp.as_array().unwrap().iter().map(atoms).collect()).collect(),
+                })
+                .collect(),
+            urows: us("urows"),
+            lkcheat: j.get("lkcheat").filter(|v| !v.is_null()).map(|v| {
+                (v[0].as_u64().unwrap() as usize, v[1].as_array().unwrap().iter().map(|x| x.as_str().map(|s| s.to_string()).unwrap_or_else(|| x.to_string())).collect())
+            }),
+        }
+    }
+    /// Fill in what depends on the number of usable rows (n - (blinding_factors + 1), blinding_factors taken from
+    /// the real ConstraintSystem of this very shape): `urows` and the contents of "len_from_usable" tables.
+    pub fn resolve(&mut self, k: u32) {
+        if self.tables.is_empty() {
+            return;
+        }
+        let mut cs = ConstraintSystem::<midnight_curves::Fq>::default();
+        let _ = ShapeCircuit::<midnight_curves::Fq>::configure_with_params(&mut cs, self.clone());
+        let n = 1usize << k;
+        self.urows = n.saturating_sub(cs.blinding_factors() + 1);
+        for t in self.tables.iter_mut() {
+            if let Some(d) = t.len_from_usable {
+                let len = (self.urows as i64 + d).max(1) as usize;
+                t.rows = (0..len).map(|i| (0..t.ncols).map(|j| (i + 1 + 10 * j) as u64).collect()).collect();
+            }
+        }
+    }
+    /// first enabled row of static lookup l ("mux"/"mul"; a "none" lookup is enabled on every row)
+    pub fn slookup_base(&self, l: usize) -> usize {
+        let mut base = 3 * self.gates.len() + self.copies.len() + 1;
+        for p in self.slookups[..l].iter().filter(|p| p.sel != "none") {
+            base += p.nrows + 2;
+        }
+        base
+    }
+    /// rows on which the witness of static lookup l makes its input a table row
+    pub fn slookup_rows(&self, l: usize) -> Vec<usize> {
+        if self.slookups[l].sel == "none" {
+            (0..self.urows).collect()
+        } else {
+            let b = self.slookup_base(l);
+            (b..b + self.slookups[l].nrows).collect()
         }
     }
     pub fn gate_base(&self, g: usize) -> usize {
@@ -162,6 +256,9 @@ pub struct Cfg {
     pub chal: Vec<Challenge>,
     pub sels: Vec<Option<Selector>>,
     pub const_col: Option<Column<Fixed>>,
+    /// static tables: the TableColumns of every table; the selector of every static lookup
+    pub tcols: Vec<Vec<TableColumn>>,
+    pub lsels: Vec<Option<Selector>>,
 }
 
 /// The circuit. `gen` yields the free witness value of an advice cell (proof index, column, row);
@@ -326,7 +423,46 @@ impl<F: PrimeField> Circuit<F> for ShapeCircuit<F> {
                     .collect()
             });
         }
-        Cfg { shape: s, adv, fix, inst, chal, sels, const_col }
+        // static tables: columns after every other fixed column; then the lookups into them
+        let tcols: Vec<Vec<TableColumn>> = s.tables.iter().map(|t| (0..t.ncols).map(|_| meta.lookup_table_column()).collect()).collect();
+        let mut lsels = vec![];
+        for (li, l) in s.slookups.iter().enumerate() {
+            let q = match l.sel.as_str() {
+                "mux" | "mul" => Some(meta.complex_selector()),
+                "none" => None,
+                k => panic!("static lookup selector kind {k}"),
+            };
+            lsels.push(q);
+            let (adv, fix, inst, chal) = (&adv, &fix, &inst, &chal);
+            let t = &s.tables[l.table];
+            let cols = &tcols[l.table];
+            assert_eq!(l.inputs.len(), t.ncols, "one input per table column");
+            meta.lookup(format!("slk{li}"), |m| {
+                l.inputs
+                    .iter()
+                    .enumerate()
+                    .map(|(j, inp)| {
+                        let mut it = inp.iter();
+                        let mut e = prod_expr(m, it.next().expect("no product"), adv, fix, inst, chal);
+                        for p in it {
+                            e = e + prod_expr(m, p, adv, fix, inst, chal);
+                        }
+                        let e = match (l.sel.as_str(), q) {
+                            ("mux", Some(q)) => {
+                                // rows with q = 0 look the table's first row up; a "len_from_usable" table starts with 1 + 10 j
+                                let d = t.rows.first().map(|r| r[j]).unwrap_or((1 + 10 * j) as u64);
+                                let qe = m.query_selector(q);
+                                qe.clone() * e + (Expression::Constant(F::ONE) - qe) * Expression::Constant(F::from(d))
+                            }
+                            ("mul", Some(q)) => m.query_selector(q) * e,
+                            _ => e,
+                        };
+                        (e, cols[j])
+                    })
+                    .collect()
+            });
+        }
+        Cfg { shape: s, adv, fix, inst, chal, sels, const_col, tcols, lsels }
     }
 
     fn synthesize(&self, c: Cfg, mut l: impl Layouter<F>) -> Result<(), Error> {
@@ -407,6 +543,62 @@ impl<F: PrimeField> Circuit<F> for ShapeCircuit<F> {
                     }
                     let orow = (base + *orot as i64) as usize;
                     advice.insert((*ocol, orow), sum);
+                }
+            }
+        }
+        // 1b. static tables (keygen side: Assembly::assign_fixed + fill_from_row; checker side: MockProver's own)
+        let order: Vec<usize> = if s.assign_order.is_empty() { (0..s.tables.len()).collect() } else { s.assign_order.clone() };
+        for ti in order {
+            let t = &s.tables[ti];
+            let cols = &c.tcols[ti];
+            l.assign_table(
+                || format!("table{ti}"),
+                |mut table| {
+                    for (off, row) in t.rows.iter().enumerate() {
+                        for (j, v) in row.iter().enumerate() {
+                            table.assign_cell(|| "t", cols[j], off, || Value::known(F::from(*v)))?;
+                        }
+                    }
+                    Ok(())
+                },
+            )?;
+        }
+        // 1c. witness of the static lookups: on every enabled row the input tuple is a table row (cycling through the
+        //     table), except for the `lkcheat` tuple on the first enabled row of the named lookup
+        let mut ladv: BTreeMap<(usize, usize), Value<F>> = BTreeMap::new();
+        for (li, lk) in s.slookups.iter().enumerate() {
+            let t = &s.tables[lk.table];
+            for (e, row) in s.slookup_rows(li).into_iter().enumerate() {
+                let mut target: Vec<F> = t.rows[e % t.rows.len()].iter().map(|v| F::from(*v)).collect();
+                if let Some((cl, tup)) = &s.lkcheat {
+                    if *cl == li && e == 0 {
+                        target = tup.iter().map(|d| F::from_str_vartime(d).expect("lkcheat: decimal field element")).collect();
+                    }
+                }
+                for (j, inp) in lk.inputs.iter().enumerate() {
+                    let solved = match inp[0].as_slice() {
+                        [Atom::A(col, 0)] => *col,
+                        _ => panic!("static lookup input must start with a single advice atom at rotation 0"),
+                    };
+                    let mut rest = Value::known(F::ZERO);
+                    for p in inp[1..].iter() {
+                        let mut v = Value::known(F::ONE);
+                        for a in p.iter() {
+                            let av: Value<F> = match a {
+                                Atom::A(col, r) => {
+                                    let rr = (row as i64 + *r as i64) as usize;
+                                    *ladv.entry((*col, rr)).or_insert_with(|| free(*col, rr))
+                                }
+                                Atom::K(k) => Value::known(F::from(*k)),
+                                Atom::C(i) => chal_vals[*i],
+                                _ => panic!("static lookup input: only advice atoms, constants and challenges"),
+                            };
+                            v = v * av;
+                        }
+                        rest = rest + v;
+                    }
+                    let tv = if known { Value::known(target[j]) - rest } else { Value::unknown() };
+                    ladv.insert((solved, row), tv);
                 }
             }
         }
@@ -507,6 +699,17 @@ impl<F: PrimeField> Circuit<F> for ShapeCircuit<F> {
                             r.constrain_equal(a, fcell)?;
                         }
                     }
+                }
+                // static lookups: selectors and input cells
+                for (li, _) in s.slookups.iter().enumerate() {
+                    if let Some(q) = c.lsels[li] {
+                        for row in s.slookup_rows(li) {
+                            q.enable(&mut r, row)?;
+                        }
+                    }
+                }
+                for ((col, row), v) in ladv.iter() {
+                    r.assign_advice(|| "lk", c.adv[*col], *row, || *v)?;
                 }
                 Ok(inst_cells)
             },
